@@ -19,7 +19,7 @@ func init() {
 	Register(&Rule{
 		ID:    "R-SMALL",
 		Doc:   "single-site obligations: thrift Reset recomputes protocol flags like the constructor; the seen-bit of a decoded field is set on every path that consumes it; keyset lookups are confirmed by a length comparison; HTML key fragments are always computed; slice growth is geometric; every callback parameter of the skippers is used; trailing-data tests dominate success returns; varint overflow constants; sort-before-delta; number-kind precedence; identities of base64/time/endianness callees",
-		Props: []string{"C01", "C02", "C03", "C04", "C07", "C08", "C09", "C10", "C11", "C12", "C13", "C14", "C16", "C17", "C19"},
+		Props: []string{"C01", "C02", "C03", "C04", "C05", "C06", "C07", "C08", "C09", "C10", "C11", "C12", "C13", "C14", "C16", "C17", "C19"},
 		Min:   map[string]int{"C01": 5, "C02": 3, "C03": 1, "C04": 4, "C07": 3, "C08": 4, "C12": 2, "C13": 3, "C14": 3, "C16": 1, "C17": 1, "C19": 2},
 		Run:   runSmall,
 	})
@@ -73,6 +73,11 @@ func runSmall(c *core.Ctx) []core.Obligation {
 	smallFieldNumberLimit(c, b)
 	smallMapTemplateEntryComplete(c, b)
 	smallTokenizerFloat(c, b)
+	smallVarintBytes(c, b)
+	smallNumberExactLiteral(c, b)
+	smallNoFieldByIndex(c, b)
+	smallDirectNamesShadowBoth(c, b)
+	smallMarshalerNilChecked(c, b)
 	smallStringOptionNull(c, b)
 	smallStringOptionMarshaler(c, b)
 	return b.out
@@ -991,6 +996,285 @@ func smallRawVarintByte(c *core.Ctx, b *ob) {
 	}
 	if n == 0 {
 		b.addP(props, core.Discharged, "raw-varint-byte:none", "proto", "no integer is written as a raw byte outside encodeVarint: every length and tag goes through the varint encoder")
+	}
+}
+
+// S52 — a nil pointer whose type implements Marshaler or TextMarshaler is written as null (or, as a
+// map key, as the empty string): the method is not called. json's three call sites of
+// MarshalJSON / MarshalText (the two value encoders and the text of map keys used for sorting)
+// each test IsNil on the reflect.Value first; without it a value-receiver method is called through
+// a nil pointer, which panics.
+func smallMarshalerNilChecked(c *core.Ctx, b *ob) {
+	props := []string{"C06", "C01"}
+	n := 0
+	fns := c.RepoFunctions()
+	sort.Slice(fns, func(i, j int) bool { return shortName(fns[i]) < shortName(fns[j]) })
+	for _, fn := range fns {
+		name := shortName(fn)
+		if fn.Blocks == nil || !strings.HasPrefix(name, "json.") {
+			continue
+		}
+		for _, ci := range callsIn(fn) {
+			m := ci.Common().Method
+			if m == nil || (m.Name() != "MarshalJSON" && m.Name() != "MarshalText") {
+				continue
+			}
+			n++
+			key := "marshaler:nil-checked:" + closureIndex.ReplaceAllString(name, "") + ":" + m.Name()
+			checked := false
+			// a test of IsNil() whose true edge leaves (return) dominates the call through its
+			// false edge, or the call's block is reached only after such a test was passed
+			for _, blk := range fn.Blocks {
+				ifi, ok := blk.Instrs[len(blk.Instrs)-1].(*ssa.If)
+				if !ok {
+					continue
+				}
+				conds := []ssa.Value{ifi.Cond}
+				if phi, isPhi := ifi.Cond.(*ssa.Phi); isPhi {
+					conds = append(conds, phi.Edges...)
+				}
+				isNilTest := false
+				for _, cv := range conds {
+					if cc, isCall := cv.(*ssa.Call); isCall && calleeName(cc.Common()) == "(reflect.Value).IsNil" {
+						isNilTest = true
+					}
+				}
+				if !isNilTest {
+					continue
+				}
+				// the nil side must not reach the call
+				nilSide := blk.Succs[0]
+				// (the test itself sits under a kind switch — only pointers and interfaces can be
+				// nil — so it need not dominate the call; its nil side must not lead to it)
+				if nilSide != ci.Block() && !reachableFromBlock(nilSide, ci.Block()) && reachableFromBlock(blk, ci.Block()) {
+					checked = true
+				}
+			}
+			if checked {
+				b.addP(props, core.Discharged, key, c.InstrPos(ci), "IsNil is tested before the method is called")
+			} else {
+				b.addP(props, core.Violation, key, c.InstrPos(ci), name+" calls "+m.Name()+" on a value without having tested IsNil: for a nil pointer whose element type has the method with a value receiver, the call panics (\"value method called using nil pointer\") where encoding/json writes null (or \"\" for a map key)")
+			}
+		}
+	}
+	if n == 0 {
+		b.addP(props, core.Undecided, "marshaler:nil-checked", "-", "no MarshalJSON/MarshalText call found in json")
+	}
+}
+
+// S50 — reflect.Value.FieldByIndex panics when the path goes through a nil embedded pointer. The
+// codecs walk promoted fields step by step with a nil test at each pointer; a call of
+// FieldByIndex in steady-state code turns a nil embedded struct pointer into a panic.
+func smallNoFieldByIndex(c *core.Ctx, b *ob) {
+	props := []string{"C04", "C08"}
+	key := "reflect:no-field-by-index"
+	bad := ""
+	for _, fn := range c.RepoFunctions() {
+		if fn.Blocks == nil {
+			continue
+		}
+		name := shortName(fn)
+		if !(strings.HasPrefix(name, "thrift.") || strings.HasPrefix(name, "json.") || strings.HasPrefix(name, "proto.")) {
+			continue
+		}
+		for _, ci := range callsIn(fn) {
+			if calleeName(ci.Common()) == "(reflect.Value).FieldByIndex" {
+				if name == "thrift.(*structDecoder).decode" {
+					continue // the path of the union interface field, set once a variant has been decoded into the same struct
+				}
+				bad = name + " at " + c.InstrPos(ci)
+			}
+		}
+	}
+	if bad != "" {
+		b.addP(props, core.Violation, key, "-", "reflect.Value.FieldByIndex is called ("+bad+"): it panics (\"indirection through nil pointer to embedded struct\") when a field is promoted through an embedded struct pointer that is nil, a value the codecs otherwise treat as \"field absent\"")
+	} else {
+		b.addP(props, core.Discharged, key, "-", "promoted fields are reached step by step, never through FieldByIndex")
+	}
+}
+
+// S51 — json's field resolution: a name declared directly in a struct shadows every promoted field
+// of that name, tagged or not. appendStructFields records the direct names in both of its
+// ambiguity counters (by name, and by tagged name); recorded in one only, a promoted field whose
+// tag gives it the same name counts as the single tagged candidate and is added as a duplicate.
+func smallDirectNamesShadowBoth(c *core.Ctx, b *ob) {
+	props := []string{"C01", "C02"}
+	key := "struct-fields:direct-names-shadow-tagged-too"
+	fn := c.Lookup("json.appendStructFields")
+	if fn == nil {
+		b.addP(props, core.Undecided, key, "-", "json.appendStructFields not found")
+		return
+	}
+	// the counters: map[string]int created in the function
+	counters := map[ssa.Value]bool{}
+	for _, blk := range fn.Blocks {
+		for _, in := range blk.Instrs {
+			if mk, ok := in.(*ssa.MakeMap); ok && strings.HasSuffix(mk.Type().String(), "map[string]int") {
+				counters[mk] = true
+			}
+		}
+	}
+	// the loop that ranges over a map[string]struct{} (the direct names)
+	updated := map[ssa.Value]bool{}
+	found := false
+	for _, blk := range fn.Blocks {
+		for _, in := range blk.Instrs {
+			mu, ok := in.(*ssa.MapUpdate)
+			if !ok || !counters[mu.Map] {
+				continue
+			}
+			// key comes from a range over a map with empty-struct values
+			fromNames := dependsOn(mu.Key, func(x ssa.Value) bool {
+				nx, isN := x.(*ssa.Next)
+				if !isN {
+					return false
+				}
+				rg, isR := nx.Iter.(*ssa.Range)
+				return isR && strings.HasSuffix(rg.X.Type().String(), "map[string]struct{}")
+			})
+			if fromNames {
+				found = true
+				updated[mu.Map] = true
+			}
+		}
+	}
+	switch {
+	case len(counters) < 2 || !found:
+		b.addP(props, core.Undecided, key, c.FuncPos(fn), "the ambiguity counters or the loop over the directly declared names were not found")
+	case len(updated) < len(counters):
+		b.addP(props, core.Violation, key, c.FuncPos(fn), fmt.Sprintf("appendStructFields records the directly declared names in %d of its %d ambiguity counters: a promoted field whose tag gives it the name of a direct field is then taken for the only tagged candidate and added next to the direct one (with the map-based lookup, used for long names, the promoted duplicate wins)", len(updated), len(counters)))
+	default:
+		b.addP(props, core.Discharged, key, c.FuncPos(fn), "direct names are recorded in every ambiguity counter")
+	}
+}
+
+// S49 — a json.Number is written only if it is exactly a number literal (encoding/json:
+// isValidNumber). Unlike RawMessage and Marshaler output, which are documents and may be
+// surrounded by white space, nothing may precede or follow the literal: the encoder of Number must
+// not skip white space around what parseNumber consumed (Number("1 ") would be written as "1 ").
+func smallNumberExactLiteral(c *core.Ctx, b *ob) {
+	props := []string{"C01", "C05"}
+	key := "number-literal:nothing-around-it"
+	fn := c.Lookup("json.(encoder).encodeNumber")
+	if fn == nil {
+		b.addP(props, core.Undecided, key, "-", "json.(encoder).encodeNumber not found")
+		return
+	}
+	bad := ""
+	parses := false
+	for _, ci := range callsIn(fn) {
+		if f := staticCallee(ci.Common()); f != nil {
+			if strings.HasPrefix(f.Name(), "skipSpaces") || f.Name() == "TrimSpace" {
+				bad = c.InstrPos(ci)
+			}
+			if f.Name() == "parseNumber" {
+				parses = true
+			}
+		}
+	}
+	switch {
+	case !parses:
+		b.addP(props, core.Undecided, key, c.FuncPos(fn), "encodeNumber does not validate with parseNumber")
+	case bad != "":
+		b.addP(props, core.Violation, key, bad, "encodeNumber skips white space around the number it validates: json.Number(\"1 \") is accepted and written with its trailing space ([1 ,2]) where encoding/json reports an invalid number literal")
+	default:
+		b.addP(props, core.Discharged, key, c.FuncPos(fn), "the Number must be the literal and nothing else")
+	}
+}
+
+// S48 — proto's unrolled varint encoder: in the case for n bytes, byte i holds bits 7i..7i+6 of the
+// value, with the continuation bit (0x80) on every byte but the last. Each case is a block of
+// stores to constant indexes; the shape of every store is checked against that table. A byte that
+// loses its continuation bit ends the varint early for the values whose next payload bit is 0.
+func smallVarintBytes(c *core.Ctx, b *ob) {
+	props := []string{"C03", "C12", "C16"}
+	key := "varint-encoder:byte-table"
+	fn := c.Lookup("proto.encodeVarint")
+	if fn == nil {
+		b.addP(props, core.Undecided, key, "-", "proto.encodeVarint not found")
+		return
+	}
+	dst := fn.Params[0]
+	cases, bad := 0, ""
+	for _, blk := range fn.Blocks {
+		type st struct {
+			idx, shift int64
+			cont       bool
+			pos        string
+		}
+		var stores []st
+		okShape := true
+		for _, in := range blk.Instrs {
+			s, ok := in.(*ssa.Store)
+			if !ok {
+				continue
+			}
+			ia, ok := s.Addr.(*ssa.IndexAddr)
+			if !ok || ia.X != ssa.Value(dst) {
+				continue
+			}
+			i, isK := constInt(ia.Index)
+			if !isK {
+				okShape = false
+				continue
+			}
+			v := s.Val
+			cont := false
+			if or, isOr := v.(*ssa.BinOp); isOr && or.Op == token.OR {
+				if k, isK := constInt(or.Y); isK && k == 0x80 {
+					cont = true
+					v = or.X
+				}
+			}
+			if cv, isCv := v.(*ssa.Convert); isCv {
+				v = cv.X
+			}
+			shift := int64(0)
+			if sh, isSh := v.(*ssa.BinOp); isSh && sh.Op == token.SHR {
+				if k, isK := constInt(sh.Y); isK {
+					shift = k
+					v = sh.X
+				}
+			}
+			if v != ssa.Value(fn.Params[1]) {
+				okShape = false
+			}
+			stores = append(stores, st{i, shift, cont, c.InstrPos(s)})
+		}
+		if len(stores) == 0 {
+			continue
+		}
+		cases++
+		if !okShape {
+			bad = c.PosOf(blk.Instrs[0].Pos()) + " (a store that is not byte(v>>k) [|0x80] at a constant index)"
+			continue
+		}
+		max := int64(-1)
+		for _, x := range stores {
+			if x.idx > max {
+				max = x.idx
+			}
+		}
+		for _, x := range stores {
+			if x.shift != 7*x.idx {
+				bad = fmt.Sprintf("%s (byte %d takes v>>%d, the table says v>>%d)", x.pos, x.idx, x.shift, 7*x.idx)
+			}
+			if x.cont != (x.idx < max) {
+				if x.idx < max {
+					bad = fmt.Sprintf("%s (byte %d of a %d-byte varint has no continuation bit: the varint ends there whenever bit %d of the value is 0)", x.pos, x.idx, max+1, 7*x.idx+7)
+				} else {
+					bad = fmt.Sprintf("%s (the last byte of a %d-byte varint carries a continuation bit)", x.pos, max+1)
+				}
+			}
+		}
+	}
+	switch {
+	case cases == 0:
+		b.addP(props, core.Info, key, c.FuncPos(fn), "encodeVarint is not an unrolled table of byte stores")
+	case bad != "":
+		b.addP(props, core.Violation, key, c.FuncPos(fn), "proto.encodeVarint deviates from the varint byte table at "+bad+": the bytes written are not the varint of the value, and what follows is read as a new tag")
+	default:
+		b.addP(props, core.Discharged, key, c.FuncPos(fn), fmt.Sprintf("%d cases: byte i = v>>7i, continuation bit on all but the last", cases))
 	}
 }
 
